@@ -497,7 +497,7 @@ def elem_lit(s, nf):
             f"{oq(s['out_voa'])} {oq(s['in_voa'])} {nfs}")
 
 
-def oms_lit(built, o, p0):
+def oms_lit(built, o, p0, pref_ch):
     from gnpy.core import elements as E
     st, en = o['start'], o['end']
     s = (f"(sroadm {slist([x for x in eff_restr(built, st, 'booster_variety_list')])})"
@@ -505,13 +505,25 @@ def oms_lit(built, o, p0):
     e = (f"(eroadm {slist([x for x in eff_restr(built, en, 'preamp_variety_list')])})"
          if isinstance(en, E.Roadm) else 'EndTrx')
     bmin, bmax = o['band']
-    return f"oms {qlit(bmin)} {qlit(bmax)} {qlit(p0)} {s} {e} {listlit([elem_lit(x, built['nf']) for x in o['snap']])}"
+    o['pref_total'] = oms_pref_total(built['case'], o, pref_ch)
+    return f"oms {qlit(bmin)} {qlit(bmax)} {qlit(o['pref_total'])} {qlit(p0)} {s} {e} {listlit([elem_lit(x, built['nf']) for x in o['snap']])}"
 
 
-def net_term(built, omses, p0s, pref_ch, pref_total):
+def oms_pref_total(case, o, pref_ch):
+    """pref_total_db of the OMS: SI channel count, or - use_si_channel_count_for_design false - the channel count of
+    the OMS's design band (automatic_nch), computed independently"""
+    si = case['si']
+    if si.get('use_si_channel_count_for_design', True):
+        nch = int((si['f_max'] - si['f_min']) // si['spacing'])
+    else:
+        nch = int((o['band'][1] - o['band'][0]) // si['spacing'])
+    return pref_ch + db(nch)
+
+
+def net_term(built, omses, p0s, pref_ch, pref_total=None):
     si = built['case']['si']
-    return (f"run_net {cfg_lit(built['case']['span'])} {lib_lit(built['equipment'])} {qlit(pref_ch)} {qlit(pref_total)} "
-            f"{listlit([oms_lit(built, o, p0) for o, p0 in zip(omses, p0s)])}")
+    return (f"run_net {cfg_lit(built['case']['span'])} {lib_lit(built['equipment'])} {qlit(pref_ch)} "
+            f"{listlit([oms_lit(built, o, p0, pref_ch) for o, p0 in zip(omses, p0s)])}")
 
 
 # ------------------------------------------------------------------ oracle: propagate the design comb through one OMS
@@ -683,6 +695,26 @@ def run(ctx):
             ctx.case({'net': c['seed'], 'oms': o['nodes'][0].uid}, len(o['amps']) >= 2)
             ctx.count('oms')
             ctx.count('oms_amps_%d' % min(len(o['amps']), 6))
+            ctx.count('oms_start_' + type(o['start']).__name__ + '_end_' + type(o['end']).__name__)
+            for s_, f_ in zip([x for x in o['snap'] if x['t'] == 'fiber'], o['fibs']):
+                ctx.count('fibre')
+                if f_['att_in'] > s_['att_in'] + TOL:
+                    ctx.count('fibre_padded')
+                if s_['con_in'] is None or s_['con_out'] is None:
+                    ctx.count('fibre_default_connector')
+            ctx.count('fused', sum(1 for x in o['snap'] if x['t'] == 'fused'))
+            for s_, a_ in zip([x for x in o['snap'] if x['t'] == 'edfa'], o['amps']):
+                ctx.count('amp_variety_imposed' if s_['variety'] else ('amp_variety_list' if s_['vlist'] else 'amp_variety_auto'))
+                for k_ in ('gain', 'delta_p', 'out_voa'):
+                    if s_[k_] is not None:
+                        ctx.count('amp_operator_' + k_)
+                if s_['in_voa']:
+                    ctx.count('amp_operator_in_voa')
+                if s_['out_voa'] is None and a_['out_voa'] > 0:
+                    ctx.count('amp_auto_voa_nonzero')
+                lib_ = built['equipment']['Edfa'][a_['variety']]
+                if abs(o['pref_total'] + a_['_delta_p'] - (a_['out_voa'] if s_['out_voa'] is None else 0) - float(lib_.p_max)) < 1e-9:
+                    ctx.count('amp_at_p_max')
             if m['err']:
                 ctx.corr_break('corr:PowerDesign.design', f"{desc}: model raises {m['err']}, implementation designed it",
                                case, model=m['err'])
@@ -728,7 +760,7 @@ def run(ctx):
                 ctx.corr_break('corr:PowerDesign.design', f"{desc}: {len(o['amps'])} amplifiers designed, model {len(m['amps'])}",
                                case)
             # ---- oracle 1: the documented rule and the budget on the designed values themselves
-            oracle_static(ctx, c, built, o, p0, pref_ch, pref_total, desc, case)
+            oracle_static(ctx, c, built, o, p0, pref_ch, o['pref_total'], desc, case)
             # ---- oracle 2: propagate the design comb
             if o['amps']:
                 try:
